@@ -16,7 +16,11 @@ import wire
 # endpoints that differ in one field only, or that coincide under a careless key (dev | st << 8, dev ^ st, dev + st,
 # dev & 0xFF, st alone)
 ENDPOINT_FAMILY = [(0x0103, 0x02), (0x0003, 0x03), (0x0003, 0x02), (0x0302, 0x01), (0x0002, 0x03), (0x0005, 0x00), (0x0000, 0x05),
-                   (0x0100, 0x00), (0x0000, 0x01)]
+                   (0x0100, 0x00), (0x0000, 0x01), (0xFFFF, 0xFF), (0x0000, 0x00), (0xFFFF, 0x00), (0x00FF, 0xFF)]
+
+
+def Kind_typed(mt, pt):
+    return (mt == 1 and pt in (1, 2, 3, 7, 8)) or (mt == 3 and pt in (1, 2))
 
 
 def logical(rng, kind, total, ver):
@@ -46,7 +50,7 @@ def split_sizes(rng, n, cap, equal):
 class Sender:
     def __init__(self, rng, dev, st, ctr0):
         self.rng, self.dev, self.st, self.ctr = rng, dev, st, ctr0
-        self.ver = rng.choice([1, 1, 2, 9])
+        self.ver = rng.choice([1, 1, 2, 9, 255])
 
     def frame(self, mt, body):
         self.ctr = (self.ctr + 1) & 0xFFFF
@@ -85,9 +89,23 @@ class Sender:
             if rng.random() < 0.15:
                 sizes.insert(rng.randrange(1, len(sizes) + 1), 0)      # a zero-length segment
             off = 0
+            lead = []
+            if rng.random() < 0.15:
+                # one or two unsegmented messages in front of the first segment, in the same frame
+                for _ in range(rng.choice([1, 2])):
+                    q = logical(rng, 'generic', rng.choice([1, 8, 30]), self.ver)
+                    q['mt'] = p['mt']
+                    if Kind_typed(q['mt'], q['pt']):
+                        q['pt'] = 0x42
+                    lead.append(q)
             for k, sz in enumerate(sizes):
                 seg = 1 if k == 0 else (3 if k == len(sizes) - 1 else 2)
                 body = wire.msg_header(p, seg, sz) + p['pl'][off:off + sz]
+                if k == 0 and lead:
+                    pre = []
+                    for q in lead:
+                        pre += wire.msg_header(q, 0, len(q['pl'])) + q['pl']
+                    body = pre + body
                 off += sz
                 t = rng.random()
                 if t < 0.15:
@@ -97,6 +115,9 @@ class Sender:
                 last = seg == 3
                 meta = {'sent': [{'ep': [self.dev, self.st], 'p': p}] if last else [],
                         'deliver': [[p] if last else []], 'seg': seg}
+                if k == 0 and lead:
+                    meta['sent'] = [{'ep': [self.dev, self.st], 'p': q} for q in lead] + meta['sent']
+                    meta['deliver'] = [list(lead)]
                 out.append((self.frame(p['mt'], body), meta))
         return out
 
@@ -104,17 +125,17 @@ class Sender:
 def streams(seed, nepisodes, prefix, faults=False, big=True):
     rng = random.Random(seed)
     for i in range(nepisodes):
-        nend = rng.choice([1, 2, 3, 4, 6])
+        nend = rng.choice([1, 2, 3, 4, 6, 40])          # 40: the table is rehashed while messages are open
         eps = set(rng.sample(ENDPOINT_FAMILY, min(nend, 3)))
         while len(eps) < nend:
-            eps.add((rng.choice([1, 2, 513, 65535]), rng.choice([0, 1, 7, 255])))
+            eps.add((rng.choice([1, 2, 513, 65535, rng.randrange(65536)]), rng.choice([0, 1, 7, 255, rng.randrange(256)])))
         senders = [Sender(rng, d, s, rng.choice([0, 100, 65530, 65533, 65534, 65535])) for d, s in sorted(eps)]
         queues = []
         budget = 120000
         for s in senders:
             q = []
-            for _ in range(rng.choice([2, 4, 8])):
-                fr = s.message_frames(rng, big)
+            for _ in range(rng.choice([2, 4, 8]) if nend < 40 else 1):
+                fr = s.message_frames(rng, big and nend < 40)
                 budget -= sum(len(f) for f, _ in fr)
                 q += fr
                 if budget < 0:
@@ -203,6 +224,25 @@ def encoder_streams(seed, nepisodes, prefix, faults=False):
                 if faults and rng.random() < 0.3:
                     ops.append({'op': 'release', 'enc': k, 'meta': {'ep': k, 'sent': [], 'fault': 'rel'}})
         yield {'id': '%s%d' % (prefix, i), 'comp': 'dec', 'solo': True, 'ops': ops}
+
+
+def large(seed, prefix='L'):
+    """Reassembled sizes at the top of the 16 bit length field."""
+    rng = random.Random(seed)
+    for i, total in enumerate([65535, 65534, 65520, 65519]):
+        s = Sender(rng, 0x0103, 0xFF, 65530)
+        p = logical(rng, 'generic', total, s.ver)
+        p['pl'] = [(7 * j + total) % 256 for j in range(total)]
+        n = 12
+        cuts = [total * k // n for k in range(n + 1)]
+        ops = [{'op': 'new'}]
+        for k in range(n):
+            seg = 1 if k == 0 else (3 if k == n - 1 else 2)
+            body = wire.msg_header(p, seg, cuts[k + 1] - cuts[k]) + p['pl'][cuts[k]:cuts[k + 1]]
+            last = seg == 3
+            ops.append({'op': 'decode', 'in': s.frame(p['mt'], body),
+                        'meta': {'ep': 0, 'seg': seg, 'sent': [{'ep': [s.dev, s.st], 'p': p}] if last else [], 'deliver': [[p] if last else []]}})
+        yield {'id': '%s%d' % (prefix, i), 'comp': 'dec', 'solo': True, 'hook': False, 'ops': ops}
 
 
 def mutate(rng, frame):
